@@ -27,16 +27,16 @@ type SleepCall struct {
 }
 
 type ClockCase struct {
-	CtxKind    string      `json:"ctx"` // none | background | cancel | deadline | deadline-nodone | deadline-cancel | cancelled
-	DeadlineNs int64       `json:"deadline_ns,omitempty"`
-	CancelNs   int64       `json:"cancel_ns,omitempty"`
-	CeilingNs  int64       `json:"ceiling_ns,omitempty"`
+	CtxKind    string `json:"ctx"` // none | background | cancel | deadline | deadline-nodone | deadline-cancel | cancelled
+	DeadlineNs int64  `json:"deadline_ns,omitempty"`
+	CancelNs   int64  `json:"cancel_ns,omitempty"`
+	CeilingNs  int64  `json:"ceiling_ns,omitempty"`
 	// CeilingHow says how the host configured the ceiling: "" = the
 	// WithMaxSleep option at construction; "field" = by assigning the exported
 	// Runtime.MaxSleep after construction; "retighten" = a looser ceiling by
 	// option first, then the real one by assignment; "reoption" = a looser
 	// ceiling by option first, then the real one by applying the option again
-	CeilingHow string `json:"ceiling_how,omitempty"`
+	CeilingHow string      `json:"ceiling_how,omitempty"`
 	Sleeps     []SleepCall `json:"sleeps"`
 	TRO        string      `json:"tro,omitempty"`
 	// Via says how the sleeps are reached: "" = written directly in the
@@ -44,12 +44,12 @@ type ClockCase struct {
 	// by an earlier evaluation under a DIFFERENT (background / cancel-only /
 	// already cancelled) context; "root-ctx" = the environment also carries a
 	// root context installed with WithContext, different from the call's
-	Via    string `json:"via,omitempty"`
+	Via string `json:"via,omitempty"`
 	// Nested: exactly two sleeps, the second one inside a handler for
 	// context-cancelled around the first (entered when the first is refused
 	// beyond the deadline, or -- never, if evaluation stops as it must -- when
 	// the context dies during it)
-	Nested bool `json:"nested,omitempty"`
+	Nested bool   `json:"nested,omitempty"`
 	OldCtx string `json:"old_ctx,omitempty"` // background | cancelled | deadline-past | long-deadline
 	// Build says how the host assembled the runtime: "" = lisp.NewEnv (the
 	// standard runtime); "literal" = a Runtime composite literal handed to
